@@ -112,7 +112,7 @@ MANIFEST = {
             "items) ALL mask-admitted histories of the real env are expanded and the resulting solution set is compared "
             "with the brute-force feasible set and optimum from the independent oracle: nothing feasible-with-margin may "
             "be missing, the best reachable reward must equal the brute-force optimum. Exhaustive per instance; "
-            "instances are sampled.",
+            "instances are sampled. Also: envs constructed for another size than the explored instances; SDVRP split deliveries - on dyadic 'split' instances the set of mask-admitted histories must contain every history of the documented delivery rule (exact-arithmetic enumeration) and reach its optimum.",
     "note": "Trusted base: vlib/explore.py (enumerators, canonical forms, semi-active schedulers) and vlib/oracles. "
             "An instance whose exploration hit the node budget is inconclusive for that instance and counted separately.",
     "technique": "runtime monitoring: exhaustive execution of the real env over all mask-admitted histories of small instances, compared with a brute-force reference enumeration",
